@@ -112,18 +112,19 @@ def run(ctx):
     gt = ctx.an.cfg(te, pool)
     domt = gt.dominators(edge_ok=is_flow)
     evidence = set()
+    wv = te.params[0] if te.params else 'worker'
     for n in gt.nodes:
         if n.kind == 'test' and isinstance(n.stmt, ast.If) and n.part in (None, 'post'):
             t = norm(n.stmt.test)
-            if t == 'worker.id in self._closed' or t == 'not worker.is_alive()':
+            if t == f'{wv}.id in self._closed' or t == f'not {wv}.is_alive()':
                 for e in n.succ:
                     if e.kind == 'true':
                         evidence.add(e.dst.id)
-            if t == 'worker.id not in self._closed' or t == 'worker.is_alive()':
+            if t == f'{wv}.id not in self._closed' or t == f'{wv}.is_alive()':
                 for e in n.succ:
                     if e.kind == 'false':
                         evidence.add(e.dst.id)
-    unused = call_nodes(gt, 'handle_unused_data')
+    unused = call_nodes(gt, cl.n('handle_unused_data'))
     ctx.floor('hand-over sites in try_enqueue', len(unused), 2)
     pm = parent_map(te.node)
     for n in unused:
